@@ -736,11 +736,12 @@ func c08Elements(c *Ctx) {
 // those: its implied type nests one level per label name, and the nested spec is handed the
 // block's labels minus len(LabelNames); a spec without LabelNames hands all of them on.
 func c08Labels(c *Ctx) {
-	c.Rule("R3 labels: for every hcldec block spec, (labels.consumed) each call decode(child.Body, L, ctx, s.Nested, …) in its decode method passes L = all labels of the block when the spec declares no labels of its own, and L = labels[len(s.LabelNames):] when it has a LabelNames field (neither more nor fewer: the nested BlockLabelSpec indices count from the first label that the enclosing spec did not use); (labels.depth) the impliedType of a spec with LabelNames is dynamic or is built by a loop over s.LabelNames (one collection level per label), as its decode builds one level per label")
+	c.Rule("R3 labels: for every hcldec block spec, (labels.consumed) each call decode(child.Body, L, ctx, s.Nested, …) in its decode method and each call sourceRange(child.Body, L, s.Nested) passes L (for sourceRange all labels are accepted as well: too many labels cannot make a label index panic, too few can) = all labels of the block when the spec declares no labels of its own, and L = labels[len(s.LabelNames):] when it has a LabelNames field (neither more nor fewer: the nested BlockLabelSpec indices count from the first label that the enclosing spec did not use); (labels.depth) the impliedType of a spec with LabelNames is dynamic or is built by a loop over s.LabelNames (one collection level per label), as its decode builds one level per label")
 	pkg := c.P.Pkg("hcldec")
 	decFn := c.P.LookupFunc("hcldec", "decode")
-	if pkg == nil || decFn == nil {
-		c.CheckerFail("labels.consumed", "anchor hcldec.decode does not resolve")
+	srcRangeFn := c.P.LookupFunc("hcldec", "sourceRange")
+	if pkg == nil || decFn == nil || srcRangeFn == nil {
+		c.CheckerFail("labels.consumed", "anchor hcldec.decode / hcldec.sourceRange does not resolve")
 		return
 	}
 	var specI *types.Interface
@@ -815,12 +816,17 @@ func c08Labels(c *Ctx) {
 				fmt.Sprintf("the spec declares LabelNames and its decode nests one collection level per label, but impliedType is %s, which does not depend on the number of label names: with two labels the decoded value and the unknown placeholders made from the implied type disagree", term))
 		}
 		fns := append([]*ssa.Function{dec}, dec.AnonFuncs...)
+		srcRange := c.P.LookupFunc("hcldec", name+".sourceRange")
+		if srcRange != nil {
+			fns = append(fns, srcRange)
+			fns = append(fns, srcRange.AnonFuncs...)
+		}
 		k := 0
 		for _, fn := range fns {
 			for _, b := range fn.Blocks {
 				for _, ins := range b.Instrs {
 					call, ok := ins.(*ssa.Call)
-					if !ok || call.Call.StaticCallee() != decFn || len(call.Call.Args) < 4 {
+					if !ok || !((call.Call.StaticCallee() == decFn && len(call.Call.Args) >= 4) || (call.Call.StaticCallee() == srcRangeFn && len(call.Call.Args) == 3)) {
 						continue
 					}
 					sites++
@@ -857,7 +863,7 @@ func c08Labels(c *Ctx) {
 							switch {
 							case x.Low == nil:
 								form = "all"
-							case fn == dec && readsLN(dec, x.Low):
+							case fn.Parent() == nil && readsLN(fn, x.Low):
 								form = "rest"
 							}
 						}
@@ -866,11 +872,21 @@ func c08Labels(c *Ctx) {
 					if lnField >= 0 {
 						want = "rest"
 					}
-					key := fmt.Sprintf("hcldec.%s.decode:nested.labels", name)
+					key := fmt.Sprintf("hcldec.%s.%s:nested.labels", name, strings.TrimPrefix(fn.Name(), "decode$"))
+					if fn == dec {
+						key = fmt.Sprintf("hcldec.%s.decode:nested.labels", name)
+					}
 					if k > 1 {
 						key += fmt.Sprintf("#%d", k)
 					}
-					c.Check(form == want, "labels.consumed", key, call.Pos(), "labels handed on: "+form,
+					good := form == want
+					if call.Call.StaticCallee() == srcRangeFn && form == "all" {
+						// sourceRange only locates: with all labels a nested label index stays in range
+						// (BlockMapSpec/BlockObjectSpec.sourceRange do this; the range found is that of
+						// the key label, which no property here speaks about)
+						good = true
+					}
+					c.Check(good, "labels.consumed", key, call.Pos(), "labels handed on: "+form,
 						fmt.Sprintf("the nested spec is handed %s where a spec %s must hand on %s: a nested BlockLabelSpec{Index: i} then reads the wrong label or indexes past the end",
 							map[string]string{"all": "all labels of the block", "rest": "labels[len(s.LabelNames):]", "other": "a different part of the labels"}[form],
 							map[bool]string{true: "with LabelNames", false: "without labels of its own"}[lnField >= 0],
